@@ -279,7 +279,8 @@ def merge_value(c, a, b, sa, sb, out):
     if t is None or t == 'none':
         raise MergeFail('cannot merge %r / %r' % (a, b))
     if isinstance(t, tuple) and t[0] == 'list':
-        raise MergeFail('list value vs non-ref')
+        # a list object on one side, a symbolic list value on the other: the merged value is a fresh list object
+        return out.new_symlist(z3.If(c, lift(a, sa, t), lift(b, sb, t)), t[1])
     ite = z3.If(c, lift(a, sa, t), lift(b, sb, t))
     if t in ('str', 'bytes') and (isinstance(a, Sym) or isinstance(b, Sym)):
         # name the merged string: keeps later terms small (the defining equation goes to the path condition)
